@@ -18,12 +18,14 @@ func init() {
 			{ID: "R14.2", Configs: "all", Run: ruleR14_2},
 			{ID: "R14.3", Configs: "all", Run: ruleR14_3},
 			{ID: "R14.4", Configs: "all", Run: ruleR14_4},
+			{ID: "R14.5", Configs: "all", Run: ruleR14_5},
 		},
 		Explanation: "Decides the error discipline that C14 rests on, for every path of every Writer operation in both dispatch arms: " +
 			"(R14.1) in Write/Flush/Close of deflate.Writer, gzip.Writer, zlib.Writer the error of every call that can reach the destination is stored in the sticky field; " +
 			"(R14.2) every such call is dominated by the nil edge of a test of the sticky field; " +
 			"(R14.3) below the API no function drops the error of a destination call (it reaches a return or a sticky store); " +
-			"(R14.4) on the failure edges of a destination call no second destination call is reachable. " +
+			"(R14.4) on the failure edges of a destination call no second destination call is reachable; " +
+			"(R14.5) after the staging buffer buf.output[:buf.idx] has been handed to the destination successfully, buf.idx is set back to 0 before the function returns or appends more bits (final-block paths excepted: nothing follows them) - otherwise the same bytes are emitted twice and the unchecked 8-byte stores of the encoders run past the 8 KiB buffer. " +
 			"These are necessary conditions of 'returns that error, later calls fail without touching the destination again'; they are decided from SSA def-use, dominators and CFG reachability with edge pruning, not by running the writers.",
 		NotDecided: []string{
 			"never writes outside its own buffers (index arithmetic through unsafe stores and assembly)",
@@ -305,4 +307,103 @@ func fmtInts(a []int) string {
 		sb.WriteString(itoa(x))
 	}
 	return sb.String()
+}
+
+// R14.5: the staging index is reset after every successful hand-over of the staging buffer.
+func ruleR14_5(p *Program, r *Report) {
+	r.Expect("R14.5", 4)
+	eff := p.Effects()
+	for _, tr := range p.CompressorTypes() {
+		for _, fn := range p.Funcs() {
+			if fn.Signature.Recv() == nil || derefNamed(fn.Signature.Recv().Type()) != tr.Named {
+				continue
+			}
+			recv := fn.Params[0]
+			lab := newLabeler()
+			for _, c := range allCalls(fn) {
+				if d, _ := dstDirect(callInfo(c)); !d {
+					continue
+				}
+				args := c.Common().Args
+				if len(args) == 0 {
+					continue
+				}
+				sl, ok := args[len(args)-1].(*ssa.Slice)
+				if !ok || sl.High == nil {
+					continue
+				}
+				rootX, selX := accessPath(sl.X)
+				_, selH, okH := fieldLoad(sl.High)
+				if rootX != recv || !okH || !strings.HasSuffix(selX, ".output") || !strings.HasSuffix(selH, ".idx") {
+					continue
+				}
+				idxSel := selH
+				key := shortFn(fn) + "|" + lab.get("hand-over")
+				// exempt: the hand-over of a final block (dominated by a boolean parameter known true that is a "final" flag:
+				// the parameter that R10.6 identifies flows to eos; here: any bool parameter asserted true together with the call to writeFinalEmptyBlock before it)
+				final := false
+				for _, o := range allCalls(fn) {
+					if staticCalleeNamed(o, deflRel, "BitBuf", "writeFinalEmptyBlock") && dominatesInstr(o, c) && o.Block() == c.Block() {
+						final = true
+					}
+				}
+				if final {
+					r.OK("R14.5", key, p.InstrPos(c), "hand-over of the final empty block: nothing is appended afterwards")
+					continue
+				}
+				reset := func(in ssa.Instruction) bool {
+					st, ok := in.(*ssa.Store)
+					if !ok {
+						return false
+					}
+					root, sel := accessPath(st.Addr)
+					k, isK := constInt(st.Val)
+					return root == recv && sel == idxSel && isK && k == 0
+				}
+				target := func(in ssa.Instruction) bool {
+					if _, ok := in.(*ssa.Return); ok {
+						return true
+					}
+					cc, ok := in.(ssa.CallInstruction)
+					if !ok || cc == c {
+						return false
+					}
+					// a call that appends to the staging buffer (its summary writes <buf>.idx)
+					for _, g := range func() []*ssa.Function { cs, _ := p.Callees(cc); return cs }() {
+						ges, ok := eff.calleeEffects(g)
+						if !ok {
+							continue
+						}
+						for ef := range ges {
+							if ef.Param < 0 || !strings.HasSuffix(ef.Sel, ".idx") && ef.Sel != ".idx" {
+								continue
+							}
+							var arg ssa.Value
+							if cc.Common().IsInvoke() {
+								continue
+							}
+							if ef.Param < len(cc.Common().Args) {
+								arg = cc.Common().Args[ef.Param]
+							}
+							if arg == nil {
+								continue
+							}
+							root, sel := accessPath(arg)
+							if root == recv && sel+ef.Sel == idxSel {
+								return true
+							}
+						}
+					}
+					return false
+				}
+				t := NewErrTrack(p, fn, c, KindSuccess, nil)
+				found, hit, path := t.Find(target, reset)
+				why := ""
+				if found {
+					why = "after a successful hand-over " + describeInstr(p, hit) + " is reached (blocks " + fmtInts(path) + ") with " + idxSel + " still pointing behind the bytes already written: they are emitted again and the buffer fills up"
+				}
+				r.Check(!found, "R14.5", key, p.InstrPos(c), "after the staging buffer was handed to the destination its index is reset before anything else is appended or the function returns", why)
+			}
+		}
+	}
 }
